@@ -15,10 +15,10 @@ package util
 
 //@ func StringContainsAnySubStrs [C13]
 //@   pure
-//@   ensures #none (forall i int :: 0 <= i && i < len(l) ==> !contains(s, l[i])) ==> result == ""
-//@   ensures #first (exists i int :: 0 <= i && i < len(l) && contains(s, l[i])) ==> (exists k int :: 0 <= k && k < len(l) && result == l[k] && contains(s, l[k]) && (forall j int :: 0 <= j && j < k ==> !contains(s, l[j])))
+//@   ensures #none (forall i int :: 0 <= i && i < len(l) ==> !(len(l[i]) > 0 && contains(s, l[i]))) ==> result == ""
+//@   ensures #first-real-entry-found-wherever-empty-entries-stand (exists i int :: 0 <= i && i < len(l) && len(l[i]) > 0 && contains(s, l[i])) ==> (exists k int :: 0 <= k && k < len(l) && result == l[k] && len(l[k]) > 0 && contains(s, l[k]) && (forall j int :: 0 <= j && j < k ==> !(len(l[j]) > 0 && contains(s, l[j]))))
 //@   loop 1 invariant -1 <= rangeindex && rangeindex < len(l)
-//@   loop 1 invariant forall j int :: 0 <= j && j <= rangeindex ==> !contains(s, l[j])
+//@   loop 1 invariant forall j int :: 0 <= j && j <= rangeindex ==> !(len(l[j]) > 0 && contains(s, l[j]))
 
 //@ func StringContainsAny [C13]
 //@   pure
